@@ -577,7 +577,294 @@ def gen_text():
     return o
 
 
-GENERATORS = [gen_text]
+
+def slice_bounds(sub):
+    """(lo, hi) of x[lo:hi] with int literals (hi may be negative: -k)"""
+    if not isinstance(sub, ast.Subscript) or not isinstance(sub.slice, ast.Slice):
+        raise TieError("not a slice")
+    sl = sub.slice
+
+    def val(x):
+        if x is None:
+            raise TieError("open slice bound")
+        if isinstance(x, ast.UnaryOp) and isinstance(x.op, ast.USub):
+            return -const_int(x.operand)
+        return const_int(x)
+
+    if sl.step is not None:
+        raise TieError("slice step")
+    return val(sl.lower), val(sl.upper)
+
+
+def subscripts_of(scope, base):
+    return [n for n in nodes(scope, ast.Subscript) if ast.unparse(n.value) == base]
+
+
+def gen_tape():
+    o = Out("GenTape")
+    tp = lambda: module("moto_lib/fs_tape/tape.py")
+    bl = lambda: module("moto_lib/fs_tape/block.py")
+    bd = lambda: module("moto_lib/fs_tape/block_descriptor.py")
+    cs = lambda: module("moto_lib/fs_tape/consts.py")
+    inj = lambda: module("moto_lib/fs_tape/image_worker/content_injector.py")
+    ex = lambda: module("moto_lib/fs_tape/image_worker/content_extractor.py")
+    en = lambda: module("moto_lib/fs_tape/image_worker/content_enumerator.py")
+
+    o.item("sync_read", "list Z", lambda: tr(assign_value(tp(), "startOfBlockSequenceToRead"), Env()))
+    o.item("sync_write", "list Z", lambda: tr(assign_value(tp(), "startOfBlockSequenceToWrite"), Env()))
+    o.item("tape_default_size", "Z", lambda: tr(nth(calls_to(find_scope(tp(), "Tape.__init__"), "bytearray"), 0).args[0], Env()))
+    C = {"startOfBlockSequenceToRead": "sync_read", "startOfBlockSequenceToWrite": "sync_write"}
+    enums = lambda: enum_members(cs(), "TypeOfTapeBlock")
+    for m in ("LEADER", "DATA", "EOF"):
+        o.item(f"block_type_{m}", "Z", (lambda m=m: zlit(enums()[f"TypeOfTapeBlock.{m}"])))
+    o.item("block_type_count", "Z", lambda: zlit(len(enums())))
+
+    # Tape.writeBlock
+    wb = lambda: find_scope(tp(), "Tape.writeBlock")
+    o.item("wb_next1", "Z", lambda: tr(assign_value(wb(), "nextPosition", 0), Env(params={"position": "position"}, consts=C)), params=[("", "position", "Z")])
+    o.item("wb_guard1", "bool", lambda: tr(nth(nodes(wb(), ast.If), 0).test, Env(params={"nextPosition": "nextPosition", "self.maxPosition": "maxPosition"})), params=[("", "nextPosition", "Z"), ("", "maxPosition", "Z")])
+    o.item("wb_next2", "Z", lambda: tr(assign_value(wb(), "nextPosition", 1), Env(params={"position": "position", "block.rawData": "blockRaw"})), params=[("", "position", "Z"), ("", "blockRaw", "list Z")])
+    o.item("wb_guard2", "bool", lambda: tr(nth(nodes(wb(), ast.If), 1).test, Env(params={"nextPosition": "nextPosition", "self.maxPosition": "maxPosition"})), params=[("", "nextPosition", "Z"), ("", "maxPosition", "Z")])
+
+    def raises_overflow(k):
+        i = nth(nodes(wb(), ast.If), k)
+        r = i.body[0]
+        if not (isinstance(r, ast.Raise) and isinstance(r.exc, ast.Call) and ast.unparse(r.exc.func) == "OverflowError"):
+            raise TieError("guard does not raise OverflowError")
+        return "true"
+
+    o.item("wb_guard1_raises_overflow", "bool", lambda: raises_overflow(0))
+    o.item("wb_guard2_raises_overflow", "bool", lambda: raises_overflow(1))
+
+    # Tape.nextBlock
+    nb = lambda: find_scope(tp(), "Tape.nextBlock")
+    o.item("nb_after_sync", "Z", lambda: tr(assign_value(nb(), "self._position", 1), Env(params={"pos": "pos"}, consts=C)), params=[("", "pos", "Z")])
+    o.item("nb_bound_test", "bool", lambda: tr(nth(nodes(nb(), ast.If), 1).test, Env(params={"self._position": "position", "self.maxPosition": "maxPosition"})), params=[("", "position", "Z"), ("", "maxPosition", "Z")])
+
+    def nb_len_index():
+        v = assign_value(nb(), "length")
+        if not (isinstance(v, ast.Subscript) and ast.unparse(v.value) == "self.rawData"):
+            raise TieError("length = self.rawData[...] shape")
+        return tr(v.slice, Env(params={"self._position": "position"}))
+
+    o.item("nb_len_index", "Z", nb_len_index, params=[("", "position", "Z")])
+    o.item("nb_block_end", "Z", lambda: tr(assign_value(nb(), "blockEnd"), Env(params={"self._position": "position", "length": "length"})), params=[("", "position", "Z"), ("", "length", "Z")])
+
+    # TapeBlock
+    o.item("checksum", "Z", lambda: "(let v_sum := 0 in " + tr_block(find_scope(bl(), "TapeBlock.computeChecksum").body[1:], Env(params={"data": "data"}, lets={"sum"}), None) + ")", params=[("", "data", "list Z")])
+
+    def bb():
+        return find_scope(bl(), "TapeBlock.buildFromData")
+
+    def bb_eof():
+        i = nth(nodes(bb(), ast.If), 0)
+        if ast.unparse(i.test) != "data is None":
+            raise TieError("buildFromData None test")
+        c = i.body[0].value  # TapeBlock(bytes([...]))
+        return tr(c.args[0], Env(params={"type.value": "ty"}))
+
+    o.item("bb_eof", "list Z", bb_eof, params=[("", "ty", "Z")])
+
+    def bb_parts():
+        r = bb().body[-1].value  # TapeBlock(bytes(A + data + B))
+        e = r.args[0].args[0]
+        if not (isinstance(e, ast.BinOp) and isinstance(e.op, ast.Add) and isinstance(e.left, ast.BinOp) and ast.unparse(e.left.right) == "data"):
+            raise TieError("buildFromData concatenation shape")
+        return e.left.left, e.right
+
+    o.item("bb_header", "list Z", lambda: tr(bb_parts()[0], Env(params={"type.value": "ty", "data": "data"})), params=[("", "ty", "Z"), ("", "data", "list Z")])
+
+    def bb_trailer():
+        t = bb_parts()[1]
+        if ast.unparse(t) != "bytes([TapeBlock.computeChecksum(data)])":
+            raise TieError("trailer shape")
+        return "[checksum data]"
+
+    o.item("bb_trailer", "list Z", bb_trailer, params=[("", "data", "list Z")])
+
+    def body_bounds():
+        g = find_getter(bl(), "TapeBlock", "body")
+        return slice_bounds(g.body[0].value)
+
+    o.item("body_lo", "Z", lambda: zlit(body_bounds()[0]))
+    o.item("body_hi_from_end", "Z", lambda: zlit(-body_bounds()[1]))
+    o.item("block_type_index", "Z", lambda: tr(find_getter(bl(), "TapeBlock", "type").body[0].value.args[0].slice, Env()))
+
+    # LeaderTapeBlockDescriptor
+    def bft():
+        return find_scope(bd(), "LeaderTapeBlockDescriptor.buildFromTapeBlock")
+
+    def bft_args():
+        c = bft().body[0].value
+        if len(c.args) != 4:
+            raise TieError("buildFromTapeBlock arity")
+        return c.args
+
+    def field_slice(k):
+        a = bft_args()[k]
+        # rawData[a:b].decode("utf-8").strip()
+        if not (isinstance(a, ast.Call) and ast.unparse(a.func).endswith(".decode('utf-8').strip")):
+            raise TieError("field decode/strip shape")
+        return slice_bounds(a.func.value.func.value)
+
+    o.item("ld_name_lo", "Z", lambda: zlit(field_slice(0)[0]))
+    o.item("ld_name_hi", "Z", lambda: zlit(field_slice(0)[1]))
+    o.item("ld_ext_lo", "Z", lambda: zlit(field_slice(1)[0]))
+    o.item("ld_ext_hi", "Z", lambda: zlit(field_slice(1)[1]))
+    o.item("ld_type_index", "Z", lambda: tr(bft_args()[2].slice, Env()))
+
+    def ld_mode():
+        a = bft_args()[3]
+        env = Env()
+        subs = [n for n in nodes(a, ast.Subscript)]
+        for k, sname in zip(subs, ("hi", "lo")):
+            env.params[ast.unparse(k)] = sname
+        return tr(a, env), [const_int(k.slice) for k in subs]
+
+    o.item("ld_mode_of", "Z", lambda: ld_mode()[0], params=[("", "hi", "Z"), ("", "lo", "Z")])
+    o.item("ld_mode_hi_index", "Z", lambda: zlit(ld_mode()[1][0]))
+    o.item("ld_mode_lo_index", "Z", lambda: zlit(ld_mode()[1][1]))
+
+    def ttb():
+        return find_scope(bd(), "LeaderTapeBlockDescriptor.toTapeBlock")
+
+    o.item("ld_payload_size", "Z", lambda: tr(nth(calls_to(ttb(), "bytearray"), 0).args[0], Env()))
+
+    def ttb_field(k):
+        # data[a:b] = (self.X.upper() + "pad").encode("utf-8")[c:d]
+        a = [n for n in nodes(ttb(), ast.Assign) if isinstance(n.targets[0], ast.Subscript) and isinstance(n.targets[0].slice, ast.Slice)][k]
+        lo, hi = slice_bounds(a.targets[0])
+        v = a.value
+        c, d = slice_bounds(v)
+        inner = v.value  # (...).encode("utf-8")
+        if not (isinstance(inner, ast.Call) and ast.unparse(inner.func).endswith(".encode")):
+            raise TieError("encode shape")
+        add = inner.func.value
+        if not (isinstance(add, ast.BinOp) and isinstance(add.op, ast.Add) and ast.unparse(add.left) in ("self.fileName.upper()", "self.fileExtension.upper()")):
+            raise TieError("upper()+pad shape")
+        return lo, hi, c, d, const_str(add.right), ast.unparse(add.left)
+
+    for k, nm in ((0, "name"), (1, "ext")):
+        o.item(f"ttb_{nm}_lo", "Z", (lambda k=k: zlit(ttb_field(k)[0])))
+        o.item(f"ttb_{nm}_hi", "Z", (lambda k=k: zlit(ttb_field(k)[1])))
+        o.item(f"ttb_{nm}_cut_lo", "Z", (lambda k=k: zlit(ttb_field(k)[2])))
+        o.item(f"ttb_{nm}_cut_hi", "Z", (lambda k=k: zlit(ttb_field(k)[3])))
+        o.item(f"ttb_{nm}_pad", "list Z", (lambda k=k: zlist(str_points(ttb_field(k)[4]))))
+
+    def ttb_byte(k):
+        a = [n for n in nodes(ttb(), ast.Assign) if isinstance(n.targets[0], ast.Subscript) and not isinstance(n.targets[0].slice, ast.Slice)][k]
+        return const_int(a.targets[0].slice), tr(a.value, Env(params={"self.fileType": "ftype", "self.fileMode": "fmode"}))
+
+    for k, nm in ((0, "type"), (1, "mode_hi"), (2, "mode_lo")):
+        o.item(f"ttb_{nm}_index", "Z", (lambda k=k: zlit(ttb_byte(k)[0])))
+        o.item(f"ttb_{nm}_value", "Z", (lambda k=k: ttb_byte(k)[1]), params=[("", "ftype", "Z"), ("", "fmode", "Z")])
+
+    def ttb_block_type():
+        r = ttb().body[-1].value
+        if ast.unparse(r.func) != "TapeBlock.buildFromData" or ast.unparse(r.args[0]) != "data":
+            raise TieError("toTapeBlock return shape")
+        return tr(r.args[1], Env(enums=enums()))
+
+    o.item("ttb_block_type", "Z", ttb_block_type)
+
+    # injector: extension -> (extension, type, mode, strip ",a")
+    def perform():
+        return find_scope(inj(), "TapeImageContentInjector.perform")
+
+    o.item("inj_default_type", "Z", lambda: tr(assign_value(perform(), "fileType", 0), Env()))
+    o.item("inj_default_mode", "Z", lambda: tr(assign_value(perform(), "fileMode", 0), Env()))
+
+    def inj_dispatch():
+        chain = None
+        for i in nodes(perform(), ast.If):
+            if isinstance(i.test, ast.Compare) and ast.unparse(i.test.left) == "fileExtension" and isinstance(i.test.ops[0], ast.Eq):
+                chain = i
+                break
+        if chain is None:
+            raise TieError("extension dispatch not found")
+
+        def branch(stmts):
+            ext, ty, mode, strip = "ext", "inj_default_type", "inj_default_mode", "false"
+            for s_ in stmts:
+                if not isinstance(s_, ast.Assign):
+                    raise TieError("dispatch branch statement")
+                t = ast.unparse(s_.targets[0])
+                if t == "fileExtension":
+                    ext = zlist(str_points(const_str(s_.value)))
+                elif t == "fileType":
+                    ty = tr(s_.value, Env())
+                elif t == "fileMode":
+                    mode = tr(s_.value, Env())
+                elif t == "src" and ast.unparse(s_.value) == "src[:-2]":
+                    strip = "true"
+                else:
+                    raise TieError(f"dispatch assigns {t}")
+            return f"({ext}, {ty}, {mode}, {strip})"
+
+        def go(i):
+            lit = zlist(str_points(const_str(i.test.comparators[0])))
+            then = branch(i.body)
+            if not i.orelse:
+                els = "(ext, inj_default_type, inj_default_mode, false)"
+            elif len(i.orelse) == 1 and isinstance(i.orelse[0], ast.If):
+                j = i.orelse[0]
+                if not (isinstance(j.test, ast.Compare) and ast.unparse(j.test.left) == "fileExtension"):
+                    raise TieError("dispatch chain shape")
+                els = go(j)
+            else:
+                els = branch(i.orelse)
+            return f"(if zeqb_list ext {lit} then {then} else {els})"
+
+        return go(chain)
+
+    o.item("inj_dispatch", "(list Z * Z * Z * bool)", inj_dispatch, params=[("", "ext", "list Z")])
+
+    def inj_name_limit():
+        for i in nodes(perform(), ast.If):
+            if ast.unparse(i.test).startswith("len(fileName) >"):
+                lim = const_int(i.test.comparators[0])
+                lo, hi = slice_bounds(i.body[0].value)
+                if lo != 0 or hi != lim:
+                    raise TieError("name cut bounds")
+                return zlit(lim)
+        raise TieError("name limit not found")
+
+    o.item("inj_name_limit", "Z", inj_name_limit)
+
+    def inj_chunk():
+        v = assign_value(perform(), "dataNextPos", 0)
+        return tr(v, Env(params={"dataPos": "dataPos", "dataRemaining": "dataRemaining"}))
+
+    o.item("inj_next_pos", "Z", inj_chunk, params=[("", "dataPos", "Z"), ("", "dataRemaining", "Z")])
+
+    def inj_overflow_status():
+        for h in nodes(perform(), ast.ExceptHandler):
+            if ast.unparse(h.type) == "OverflowError":
+                r = [x for x in h.body if isinstance(x, ast.Return)]
+                return tr(r[0].value, Env())
+        raise TieError("OverflowError handler not found")
+
+    o.item("inj_overflow_status", "Z", inj_overflow_status)
+    o.item("inj_overflow_message", "list Z", lambda: zlist(str_points(const_str(nth(calls_to(nth(nodes(perform(), ast.ExceptHandler), 0), "print"), 0).args[0]))))
+
+    def ext_replace():
+        fn = find_scope(ex(), "TapeImageContentExtractor.perform")
+        c = nth(calls_to(fn, "replace"), 0, "replace")
+        a, b = c.args
+        frm = [47] if ast.unparse(a) == "os.sep" else str_points(const_str(a))
+        to = str_points(const_str(b))
+        if len(to) != 1 or len(frm) != 1:
+            raise TieError("replace arguments")
+        if not isinstance(c.func.value, ast.JoinedStr):
+            raise TieError("replace is not applied to the whole file name")
+        return frm, to[0]
+
+    o.item("ext_sep_from", "list Z", lambda: zlist(ext_replace()[0]))
+    o.item("ext_sep_to", "Z", lambda: zlit(ext_replace()[1]))
+    return o
+
+
+GENERATORS = [gen_text, gen_tape]
 
 
 def main():
